@@ -178,6 +178,9 @@ def check(run):
                     in_known["union_members_overlap_as_open_patterns"] += 1
                     return
             fails.append((kind, payload))
+        if any(isinstance(o[q], dict) and "err" in o[q] for o in (o0, o1) for q in QUERIES):
+            unjudged += 1          # an operation the engine does not support (it answers with an error, i.e. a diagnostic)
+            continue
         for q in QUERIES:
             if o0[q] != o1[q]:
                 bad("decision-depends-on-conversion-or-query-order", dict(desc, query=q, first_a=o0[q] if jobs[2 * i]["first"] == "a" else o1[q],
